@@ -252,6 +252,31 @@ def solvent_box(rng, n_waters=110):
     return mol(atoms, bonds)
 
 
+def fragment_order_perms(g, rng, limit=4):
+    """renumberings (label a -> perm[a]) that list the connected components of g in other orders, each component en bloc (atoms
+    inside a component shuffled): whatever a pipeline does fragment by fragment must not depend on where a fragment stands"""
+    comps = [sorted(c) for c in nx.connected_components(g)]
+    if not 2 <= len(comps) <= 40:
+        return []
+    orders = []
+    if len(comps) <= 4:
+        orders = [list(o) for o in itertools.permutations(range(len(comps)))][1:]
+        rng.shuffle(orders)
+    else:
+        orders = [rng.sample(range(len(comps)), len(comps)) for _ in range(limit)] + [list(range(len(comps)))[::-1]]
+    out = []
+    for o in orders[:limit]:
+        perm, nxt = {}, 0
+        for ci in o:
+            atoms = list(comps[ci])
+            rng.shuffle(atoms)
+            for a in atoms:
+                perm[a] = nxt
+                nxt += 1
+        out.append([perm[a] for a in range(g.number_of_nodes())])
+    return out
+
+
 def _shrikhande():
     G = nx.Graph()
     for i in range(4):
